@@ -1395,6 +1395,412 @@ fn walk(rec: Recorder, program: &Program, fail_at: Option<usize>, nonce: u64) ->
     }
 }
 
+/// First occurrence of every kind of node a VisitExpr method takes.
+#[derive(Default)]
+struct Nodes<'a> {
+    lhs: Option<&'a AssignmentLHS>,
+    rhs: Option<&'a AssignmentRHS>,
+    pnrhs: Option<&'a PoeticNumberAssignmentRHS>,
+    poetic: Option<&'a PoeticNumberLiteral>,
+    pushrhs: Option<&'a ArrayPushRHS>,
+    popexpr: Option<&'a ArrayPopExpr>,
+    binop: Option<BinaryOperator>,
+    unop: Option<UnaryOperator>,
+    list: Option<&'a ExpressionList>,
+    expr: Option<&'a Expression>,
+    primary: Option<&'a PrimaryExpression>,
+    binary: Option<&'a BinaryExpression>,
+    unary: Option<&'a UnaryExpression>,
+    subscript: Option<&'a ArraySubscript>,
+    literal: Option<&'a WithRange<LiteralExpression>>,
+    call: Option<&'a FunctionCall>,
+    ident: Option<&'a WithRange<Identifier>>,
+    pronoun: Option<SourceRange>,
+    simple: Option<(&'a SimpleIdentifier, SourceRange)>,
+    common: Option<(&'a CommonIdentifier, SourceRange)>,
+    proper: Option<(&'a ProperIdentifier, SourceRange)>,
+    varname: Option<(&'a VariableName, SourceRange)>,
+}
+
+impl<'a> Nodes<'a> {
+    fn program(&mut self, p: &'a Program) {
+        for b in &p.code {
+            self.block(b);
+        }
+    }
+    fn block(&mut self, b: &'a Block) {
+        if let Block::NonEmpty(stmts) = b {
+            for s in stmts {
+                self.stmt(s);
+            }
+        }
+    }
+    fn stmt(&mut self, s: &'a Statement) {
+        match s {
+            Statement::Assignment(a) => {
+                self.lhs(&a.dest);
+                self.rhs.get_or_insert(&a.value);
+                if let Some(o) = a.operator {
+                    self.binop.get_or_insert(o);
+                }
+                match &a.value {
+                    AssignmentRHS::ExpressionList(l) => self.list(l),
+                }
+            }
+            Statement::PoeticAssignment(PoeticAssignment::Number(a)) => {
+                self.lhs(&a.dest);
+                self.pnrhs.get_or_insert(&a.rhs);
+                match &a.rhs {
+                    PoeticNumberAssignmentRHS::Expression(e) => self.expr(e),
+                    PoeticNumberAssignmentRHS::PoeticNumberLiteral(p) => {
+                        self.poetic.get_or_insert(p);
+                    }
+                }
+            }
+            Statement::PoeticAssignment(PoeticAssignment::String(a)) => self.lhs(&a.dest),
+            Statement::If(i) => {
+                self.expr(&i.condition);
+                self.block(&i.then_block);
+                if let Some(e) = &i.else_block {
+                    self.block(e);
+                }
+            }
+            Statement::While(w) => {
+                self.expr(&w.condition);
+                self.block(&w.block);
+            }
+            Statement::Until(u) => {
+                self.expr(&u.condition);
+                self.block(&u.block);
+            }
+            Statement::Inc(i) => self.ident(&i.dest),
+            Statement::Dec(d) => self.ident(&d.dest),
+            Statement::Input(i) => {
+                if let InputDest::Some(d) = &i.dest {
+                    self.lhs(d);
+                }
+            }
+            Statement::Output(o) => self.expr(&o.value),
+            Statement::Mutation(m) => {
+                self.primary(&m.operand);
+                if let Some(d) = &m.dest {
+                    self.lhs(d);
+                }
+                if let Some(p) = &m.param {
+                    self.expr(p);
+                }
+            }
+            Statement::Rounding(r) => self.expr(&r.operand),
+            Statement::Continue(_) | Statement::Break(_) => {}
+            Statement::ArrayPush(a) => {
+                self.primary(&a.array);
+                if let Some(v) = &a.value {
+                    self.pushrhs.get_or_insert(v);
+                    match v {
+                        ArrayPushRHS::ExpressionList(l) => self.list(l),
+                        ArrayPushRHS::PoeticNumberLiteral(p) => {
+                            self.poetic.get_or_insert(p);
+                        }
+                    }
+                }
+            }
+            Statement::ArrayPop(a) => {
+                self.popexpr.get_or_insert(&a.expr);
+                self.primary(&a.expr.array);
+                if let Some(d) = &a.dest {
+                    self.lhs(d);
+                }
+            }
+            Statement::Return(r) => self.expr(&r.value),
+            Statement::Function(f) => {
+                self.var(&f.name.0, &f.name.1);
+                for p in &f.data.params {
+                    self.var(&p.0, &p.1);
+                }
+                self.block(&f.data.body);
+            }
+            Statement::FunctionCall(c) => self.call(c),
+        }
+    }
+    fn lhs(&mut self, l: &'a AssignmentLHS) {
+        self.lhs.get_or_insert(l);
+        match l {
+            AssignmentLHS::Identifier(i) => self.ident(i),
+            AssignmentLHS::ArraySubscript(a) => self.subscript(a),
+        }
+    }
+    fn ident(&mut self, i: &'a WithRange<Identifier>) {
+        self.ident.get_or_insert(i);
+        match &i.0 {
+            Identifier::VariableName(v) => self.var(v, &i.1),
+            Identifier::Pronoun => {
+                self.pronoun.get_or_insert(i.1.clone());
+            }
+        }
+    }
+    fn var(&mut self, v: &'a VariableName, r: &SourceRange) {
+        self.varname.get_or_insert((v, r.clone()));
+        match v {
+            VariableName::Simple(x) => {
+                self.simple.get_or_insert((x, r.clone()));
+            }
+            VariableName::Common(x) => {
+                self.common.get_or_insert((x, r.clone()));
+            }
+            VariableName::Proper(x) => {
+                self.proper.get_or_insert((x, r.clone()));
+            }
+        }
+    }
+    fn subscript(&mut self, a: &'a ArraySubscript) {
+        self.subscript.get_or_insert(a);
+        self.primary(&a.array);
+        self.primary(&a.subscript);
+    }
+    fn call(&mut self, c: &'a FunctionCall) {
+        self.call.get_or_insert(c);
+        self.var(&c.name.0, &c.name.1);
+        for a in &c.args {
+            self.expr(a);
+        }
+    }
+    fn list(&mut self, l: &'a ExpressionList) {
+        self.list.get_or_insert(l);
+        self.expr(&l.first);
+        for e in &l.rest {
+            self.expr(e);
+        }
+    }
+    fn expr(&mut self, e: &'a Expression) {
+        self.expr.get_or_insert(e);
+        match e {
+            Expression::PrimaryExpression(p) => self.primary(p),
+            Expression::BinaryExpression(b) => {
+                self.binary.get_or_insert(b);
+                self.binop.get_or_insert(b.operator);
+                self.expr(&b.lhs);
+                self.list(&b.rhs);
+            }
+            Expression::UnaryExpression(u) => {
+                self.unary.get_or_insert(u);
+                self.unop.get_or_insert(u.operator);
+                self.expr(&u.operand);
+            }
+        }
+    }
+    fn primary(&mut self, p: &'a PrimaryExpression) {
+        self.primary.get_or_insert(p);
+        match p {
+            PrimaryExpression::Literal(l) => {
+                self.literal.get_or_insert(l);
+            }
+            PrimaryExpression::Identifier(i) => self.ident(i),
+            PrimaryExpression::ArraySubscript(a) => self.subscript(a),
+            PrimaryExpression::FunctionCall(c) => self.call(c),
+            PrimaryExpression::ArrayPop(a) => {
+                self.popexpr.get_or_insert(a);
+                self.primary(&a.array);
+            }
+        }
+    }
+}
+
+/// Every VisitExpr method of the runner, called directly, must do what the
+/// wrapped visitor's method does (the runner forwards). Returns the name of
+/// the first method for which the two differ.
+fn direct_calls_differ(program: &Program, nonce: u64) -> Option<(String, Vec<String>, Vec<String>)> {
+    let mut n = Nodes::default();
+    n.program(program);
+    macro_rules! compare {
+        ($name:expr, $call:expr) => {{
+            crate::driver::heartbeat();
+            let mut bare = FullRecorder {
+                log: Log::new(None, nonce),
+            };
+            #[allow(clippy::redundant_closure_call)]
+            let r1: Result<Result<Trace, Injected>, String> = guarded(|| ($call)(&mut bare));
+            let mut runner = ExprVisitorRunner::with_inner(FullRecorder {
+                log: Log::new(None, nonce),
+            });
+            let r2: Result<Result<Trace, Injected>, String> = guarded(|| ($call)(&mut runner));
+            let inner = runner.inner();
+            if bare.log.events != inner.log.events || r1 != r2 {
+                return Some(($name.to_string(), bare.log.events, inner.log.events));
+            }
+        }};
+    }
+    if let Some(x) = n.lhs {
+        compare!("visit_assignment_lhs", |v: &mut dyn DynExpr| v.d_lhs(x));
+    }
+    if let Some(x) = n.rhs {
+        compare!("visit_assignment_rhs", |v: &mut dyn DynExpr| v.d_rhs(x));
+    }
+    if let Some(x) = n.pnrhs {
+        compare!("visit_poetic_number_assignment_rhs", |v: &mut dyn DynExpr| v.d_pnrhs(x));
+    }
+    if let Some(x) = n.poetic {
+        compare!("visit_poetic_number_literal", |v: &mut dyn DynExpr| v.d_poetic(x));
+        if let Some(e) = x.elems.first() {
+            compare!("visit_poetic_number_literal_elem", |v: &mut dyn DynExpr| v.d_elem(e));
+        }
+    }
+    if let Some(x) = n.pushrhs {
+        compare!("visit_array_push_rhs", |v: &mut dyn DynExpr| v.d_pushrhs(x));
+    }
+    if let Some(x) = n.popexpr {
+        compare!("visit_array_pop_expr", |v: &mut dyn DynExpr| v.d_popexpr(x));
+    }
+    if let Some(x) = n.binop {
+        compare!("visit_binary_operator", |v: &mut dyn DynExpr| v.d_binop(x));
+    }
+    if let Some(x) = n.unop {
+        compare!("visit_unary_operator", |v: &mut dyn DynExpr| v.d_unop(x));
+    }
+    if let Some(x) = n.list {
+        compare!("visit_expression_list", |v: &mut dyn DynExpr| v.d_list(x));
+    }
+    if let Some(x) = n.expr {
+        compare!("visit_expression", |v: &mut dyn DynExpr| v.d_expr(x));
+    }
+    if let Some(x) = n.primary {
+        compare!("visit_primary_expression", |v: &mut dyn DynExpr| v.d_primary(x));
+    }
+    if let Some(x) = n.binary {
+        compare!("visit_binary_expression", |v: &mut dyn DynExpr| v.d_binary(x));
+    }
+    if let Some(x) = n.unary {
+        compare!("visit_unary_expression", |v: &mut dyn DynExpr| v.d_unary(x));
+    }
+    if let Some(x) = n.subscript {
+        compare!("visit_array_subscript", |v: &mut dyn DynExpr| v.d_subscript(x));
+    }
+    if let Some(x) = n.literal {
+        compare!("visit_literal_expression", |v: &mut dyn DynExpr| v.d_literal(x));
+    }
+    if let Some(x) = n.call {
+        compare!("visit_function_call", |v: &mut dyn DynExpr| v.d_call(x));
+    }
+    if let Some(x) = n.ident {
+        compare!("visit_identifier", |v: &mut dyn DynExpr| v.d_ident(x));
+    }
+    if let Some(x) = &n.pronoun {
+        compare!("visit_pronoun", |v: &mut dyn DynExpr| v.d_pronoun(x.clone()));
+    }
+    if let Some((x, r)) = &n.varname {
+        compare!("visit_variable_name", |v: &mut dyn DynExpr| v.d_varname(WithRange(*x, r.clone())));
+    }
+    if let Some((x, r)) = &n.simple {
+        compare!("visit_simple_identifier", |v: &mut dyn DynExpr| v.d_simple(WithRange(*x, r.clone())));
+    }
+    if let Some((x, r)) = &n.common {
+        compare!("visit_common_identifier", |v: &mut dyn DynExpr| v.d_common(WithRange(*x, r.clone())));
+    }
+    if let Some((x, r)) = &n.proper {
+        compare!("visit_proper_identifier", |v: &mut dyn DynExpr| v.d_proper(WithRange(*x, r.clone())));
+    }
+    None
+}
+
+/// Object-safe view of "a VisitExpr with Output = Trace, Error = Injected",
+/// so that the same call can be made on the bare visitor and on the runner.
+trait DynExpr {
+    fn d_lhs(&mut self, a: &AssignmentLHS) -> Result<Trace, Injected>;
+    fn d_rhs(&mut self, a: &AssignmentRHS) -> Result<Trace, Injected>;
+    fn d_pnrhs(&mut self, a: &PoeticNumberAssignmentRHS) -> Result<Trace, Injected>;
+    fn d_poetic(&mut self, a: &PoeticNumberLiteral) -> Result<Trace, Injected>;
+    fn d_elem(&mut self, a: &PoeticNumberLiteralElem) -> Result<Trace, Injected>;
+    fn d_pushrhs(&mut self, a: &ArrayPushRHS) -> Result<Trace, Injected>;
+    fn d_popexpr(&mut self, a: &ArrayPopExpr) -> Result<Trace, Injected>;
+    fn d_binop(&mut self, a: BinaryOperator) -> Result<Trace, Injected>;
+    fn d_unop(&mut self, a: UnaryOperator) -> Result<Trace, Injected>;
+    fn d_list(&mut self, a: &ExpressionList) -> Result<Trace, Injected>;
+    fn d_expr(&mut self, a: &Expression) -> Result<Trace, Injected>;
+    fn d_primary(&mut self, a: &PrimaryExpression) -> Result<Trace, Injected>;
+    fn d_binary(&mut self, a: &BinaryExpression) -> Result<Trace, Injected>;
+    fn d_unary(&mut self, a: &UnaryExpression) -> Result<Trace, Injected>;
+    fn d_subscript(&mut self, a: &ArraySubscript) -> Result<Trace, Injected>;
+    fn d_literal(&mut self, a: &WithRange<LiteralExpression>) -> Result<Trace, Injected>;
+    fn d_call(&mut self, a: &FunctionCall) -> Result<Trace, Injected>;
+    fn d_ident(&mut self, a: &WithRange<Identifier>) -> Result<Trace, Injected>;
+    fn d_pronoun(&mut self, a: SourceRange) -> Result<Trace, Injected>;
+    fn d_varname(&mut self, a: WithRange<&VariableName>) -> Result<Trace, Injected>;
+    fn d_simple(&mut self, a: WithRange<&SimpleIdentifier>) -> Result<Trace, Injected>;
+    fn d_common(&mut self, a: WithRange<&CommonIdentifier>) -> Result<Trace, Injected>;
+    fn d_proper(&mut self, a: WithRange<&ProperIdentifier>) -> Result<Trace, Injected>;
+}
+
+impl<T: VisitExpr<Output = Trace, Error = Injected>> DynExpr for T {
+    fn d_lhs(&mut self, a: &AssignmentLHS) -> Result<Trace, Injected> {
+        self.visit_assignment_lhs(a)
+    }
+    fn d_rhs(&mut self, a: &AssignmentRHS) -> Result<Trace, Injected> {
+        self.visit_assignment_rhs(a)
+    }
+    fn d_pnrhs(&mut self, a: &PoeticNumberAssignmentRHS) -> Result<Trace, Injected> {
+        self.visit_poetic_number_assignment_rhs(a)
+    }
+    fn d_poetic(&mut self, a: &PoeticNumberLiteral) -> Result<Trace, Injected> {
+        self.visit_poetic_number_literal(a)
+    }
+    fn d_elem(&mut self, a: &PoeticNumberLiteralElem) -> Result<Trace, Injected> {
+        self.visit_poetic_number_literal_elem(a)
+    }
+    fn d_pushrhs(&mut self, a: &ArrayPushRHS) -> Result<Trace, Injected> {
+        self.visit_array_push_rhs(a)
+    }
+    fn d_popexpr(&mut self, a: &ArrayPopExpr) -> Result<Trace, Injected> {
+        self.visit_array_pop_expr(a)
+    }
+    fn d_binop(&mut self, a: BinaryOperator) -> Result<Trace, Injected> {
+        self.visit_binary_operator(a)
+    }
+    fn d_unop(&mut self, a: UnaryOperator) -> Result<Trace, Injected> {
+        self.visit_unary_operator(a)
+    }
+    fn d_list(&mut self, a: &ExpressionList) -> Result<Trace, Injected> {
+        self.visit_expression_list(a)
+    }
+    fn d_expr(&mut self, a: &Expression) -> Result<Trace, Injected> {
+        self.visit_expression(a)
+    }
+    fn d_primary(&mut self, a: &PrimaryExpression) -> Result<Trace, Injected> {
+        self.visit_primary_expression(a)
+    }
+    fn d_binary(&mut self, a: &BinaryExpression) -> Result<Trace, Injected> {
+        self.visit_binary_expression(a)
+    }
+    fn d_unary(&mut self, a: &UnaryExpression) -> Result<Trace, Injected> {
+        self.visit_unary_expression(a)
+    }
+    fn d_subscript(&mut self, a: &ArraySubscript) -> Result<Trace, Injected> {
+        self.visit_array_subscript(a)
+    }
+    fn d_literal(&mut self, a: &WithRange<LiteralExpression>) -> Result<Trace, Injected> {
+        self.visit_literal_expression(a)
+    }
+    fn d_call(&mut self, a: &FunctionCall) -> Result<Trace, Injected> {
+        self.visit_function_call(a)
+    }
+    fn d_ident(&mut self, a: &WithRange<Identifier>) -> Result<Trace, Injected> {
+        self.visit_identifier(a)
+    }
+    fn d_pronoun(&mut self, a: SourceRange) -> Result<Trace, Injected> {
+        self.visit_pronoun(a)
+    }
+    fn d_varname(&mut self, a: WithRange<&VariableName>) -> Result<Trace, Injected> {
+        self.visit_variable_name(a)
+    }
+    fn d_simple(&mut self, a: WithRange<&SimpleIdentifier>) -> Result<Trace, Injected> {
+        self.visit_simple_identifier(a)
+    }
+    fn d_common(&mut self, a: WithRange<&CommonIdentifier>) -> Result<Trace, Injected> {
+        self.visit_common_identifier(a)
+    }
+    fn d_proper(&mut self, a: WithRange<&ProperIdentifier>) -> Result<Trace, Injected> {
+        self.visit_proper_identifier(a)
+    }
+}
+
 struct TwoWalks {
     first: Vec<String>,
     second: Vec<String>,
@@ -1798,6 +2204,25 @@ impl Property for C16 {
                     });
                     return res;
                 }
+            }
+        }
+        // every VisitExpr method of the runner called directly
+        {
+            stats.inc("count.direct_call_comparisons");
+            if let Some((method, bare, via_runner)) = direct_calls_differ(&program, nonce) {
+                res.violation = Some(Violation {
+                    rule: "C16.Q7-runner-forwards-every-method".into(),
+                    detail: format!("ExprVisitorRunner::{} called directly does not do what the wrapped visitor's {} does", method, method),
+                    render: J::obj(vec![
+                        ("tree", J::s(format!("{:#?}", program))),
+                        ("method", J::s(method.clone())),
+                        ("callbacks_of_the_bare_visitor", J::A(bare.iter().map(|e| J::s(e.clone())).collect())),
+                        ("callbacks_through_the_runner", J::A(via_runner.iter().map(|e| J::s(e.clone())).collect())),
+                    ]),
+                    log_hash: hash_combine(key, hash_bytes(method.as_bytes())),
+                    tags: vec!["recorder:DirectCalls".into()],
+                });
+                return res;
             }
         }
         // the shape of the fold: every node folds its children's results left
